@@ -76,7 +76,7 @@ def make_config(fd, rng, tier, model=None, grid_kind=None, solvable=False, n_ext
             if solvable:
                 vals = np.maximum(vals, 1.5 * float(dtv.max()))
         elif pn == "std":
-            vals = rng.uniform(0.1, 0.8, size=pshape)  # relative, scaled below
+            vals = rng.uniform(0.1, 0.8, size=pshape) if (solvable or rng.random() < 0.6) else rng.uniform(0.8, 1.6, size=pshape)  # relative, scaled below
         else:  # weibull_shape
             vals = rng.uniform(0.5, 5.0, size=pshape)
         given[pn] = (pl, pdims, vals)
